@@ -50,13 +50,29 @@ def load_specs():
             if not meta.get("caught_by"):
                 specs.append({"name": "seeded/" + name, "patch": os.path.join(sd, name, "patch.diff"),
                               "property": meta.get("property"), "expect": None, "reverse": False, "missed": True})
+    bd = os.path.join(VERIF, "benign")
+    if os.path.isdir(bd):
+        for name in sorted(os.listdir(bd)):
+            if name.endswith(".diff"):
+                specs.append({"name": "benign/" + name[:-5], "patch": os.path.join(bd, name), "property": "all", "benign": True})
     return specs
+
+
+def claimed():
+    return open(os.path.join(HERE, "CLAIMED")).read().split()
 
 
 def run_one(spec, tier="quick", verbose=False):
     d = scratch_copy()
     try:
         apply_patch(d, spec["patch"], reverse=spec.get("reverse", False))
+        if spec.get("benign"):
+            # a behaviour-preserving change: every claimed property must stay silent (known findings excepted)
+            keys = []
+            for pid in claimed():
+                new, known, obs = engine.run_property(pid, tier, quiet=True, repo=d, write_evidence=False)
+                keys += ["%s %s %s" % (pid, o.rule, o.key) for o in new]
+            return (not keys, "behaviour-preserving change: %d false alarm(s)" % len(keys), keys)
         new, known, obs = engine.run_property(spec["property"], tier, quiet=True, repo=d, write_evidence=False)
         keys = ["%s %s" % (o.rule, o.key) for o in new]
         if spec.get("missed"):
@@ -68,17 +84,35 @@ def run_one(spec, tier="quick", verbose=False):
         shutil.rmtree(d, ignore_errors=True)
 
 
+def _init_worker(counter):
+    with counter.get_lock():
+        counter.value += 1
+        os.environ["VCHECK_SLOT"] = "-w%d" % counter.value
+
+
+def _job(s):
+    try:
+        return (s,) + tuple(run_one(s, "quick"))
+    except BaseException as e:
+        return (s, False, "error: %r" % e, [])
+
+
 def main(args, tier="quick"):
     specs = load_specs()
+    jobs = int(os.environ.get("VCHECK_JOBS", "4"))
     if args:
         specs = [s for s in specs if any(a in s["name"] for a in args)]
     fails = 0
     t0 = time.time()
-    for s in specs:
-        try:
-            ok, msg, keys = run_one(s, tier)
-        except Exception as e:
-            ok, msg, keys = False, "error: %r" % e, []
+    if jobs > 1 and len(specs) > 2:
+        import multiprocessing as mp
+        counter = mp.Value("i", 0)
+        with mp.Pool(min(jobs, len(specs)), initializer=_init_worker, initargs=(counter,)) as pool:
+            results = pool.imap(_job, specs)
+            results = list(results)
+    else:
+        results = [_job(s) for s in specs]
+    for s, ok, msg, keys in results:
         print("[%s] %-42s %-4s %s  %s" % ("ok" if ok else "FAIL", s["name"], s["property"], msg, "; ".join(keys)[:300]))
         if not ok:
             fails += 1
